@@ -309,6 +309,9 @@ func (f *frame) convert(x *Term, from, to types.Type) (*Term, error) {
 	if ts == f.e.Sorts.Str {
 		if sl, ok := from.Underlying().(*types.Slice); ok {
 			if b, ok := sl.Elem().Underlying().(*types.Basic); ok && b.Kind() == types.Int32 {
+				if es, ok := litElems(x); ok && len(es) == 0 {
+					return f.e.Sorts.StrLit(""), nil // string([]rune(nil)) == ""
+				}
 				return App("runes2str", ts, x), nil
 			}
 		}
